@@ -687,12 +687,15 @@ where
     /// ```
     #[inline]
     pub fn skip_unquoted_value(&mut self) -> Result<(), ReaderError> {
+        // a comment may sit between the value and its container and may
+        // span a refill of the buffer
+        let mut in_comment = false;
         loop {
             unsafe {
                 let mut ptr = self.buf.start;
                 let end = self.buf.end;
 
-                if end.offset_from(ptr) >= 4 {
+                if !in_comment && end.offset_from(ptr) >= 4 {
                     let word = ptr.cast::<u32>().read_unaligned().to_le();
 
                     // 50% of EU4 values followed by this whitespace sequence
@@ -703,6 +706,12 @@ where
                 }
 
                 while ptr < end {
+                    if in_comment {
+                        in_comment = *ptr != b'\n';
+                        ptr = ptr.add(1);
+                        continue;
+                    }
+
                     match *ptr {
                         b'{' => {
                             self.buf.advance_to(ptr.add(1));
@@ -711,7 +720,16 @@ where
                         b' ' | b'\t' | b'\n' | b'\r' | b';' => {
                             ptr = ptr.add(1);
                         }
-                        _ => return Ok(()),
+                        b'#' => {
+                            in_comment = true;
+                            ptr = ptr.add(1);
+                        }
+                        _ => {
+                            // everything before is whitespace or a comment,
+                            // which may have started in an earlier window
+                            self.buf.advance_to(ptr);
+                            return Ok(());
+                        }
                     }
                 }
 
